@@ -165,6 +165,8 @@ class InvCase:
             self.depth = ch.choose([2, 2, 3], "i.factory.depth")
         self.with_filters = ch.chance(0.6, "i.filters")
         self.second_target = ch.chance(0.3, "i.second")
+        if self.second_target and "mklow" in self.muts and self.depth > 2:
+            self.depth = 2  # two instances x (3 factory handlers + 1) x depth 3 takes minutes of brute force and exploration
         # which instance the invariant looks at (filters are per instance: what holds for T1 need not hold for T2)
         self.inv_target = ch.pick(2, "i.invtarget") if self.second_target else 0
         # filters (in terms of names resolved later): lists of sender constants / 'T1','T2' / selectors
